@@ -1194,8 +1194,8 @@ pub fn spec() -> PropSpec {
             Family { name: "token-log-histories", f: fam_token_log, weight: 10 },
             Family { name: "token-cache-histories", f: fam_token_cache, weight: 10 },
         ],
-        quick_worlds: 80_000,
-        thorough_worlds: 1_500_000,
+        quick_worlds: 160_000,
+        thorough_worlds: 3_000_000,
         panic_is_violation: true,
         rule: "each world = two server endpoints (different token keys; Retry policy, retry / validation token lifetimes, tokens per connection and token log implementation drawn: exact reference set, default BloomTokenLog, BloomTokenLog of 0..256 bytes, NoneTokenLog) and four client endpoints (two sharing an IP address) sharing one TokenMemoryCache of drawn capacity, running a drawn history of 2..10 connection attempts spaced 50 ms..20 s apart; each attempt presents the store's token, none, a verbatim copy of any token seen on the wire so far, or a bit-flipped / truncated / extended / spliced / random one, from a drawn address and against either server; the servers' clock jumps forward at drawn instants; after a Retry the client may be rebound (port or address) or the clock may jump past the token lifetime; retry-integrity worlds inject single-bit corruptions of genuine Retry packets and forged Retry packets carrying a valid integrity tag at drawn instants; cid-echo worlds corrupt one of the three CID-echo transport parameters of one server session (alter, remove, shorten, add); two model families drive BloomTokenLog and TokenMemoryCache directly through drawn histories; distinct = distinct abstract-event signature",
         assumptions: vec![
